@@ -42,3 +42,7 @@ void h_Node_shrink_l(void) { shrink_case(); }
 void h_Node_shrink_first(void) { shrink_case(); }
 #endif
 void h_Node_lookupNode(void) { struct Node *n = mknode(); struct RLV lv = mkview(); Node__lookupNode(n, lv); CANARY; }
+void h_Node_subscribe_int(void) { struct Node *n = mknode(); struct RLV lv = mkview(); struct OPtrI o; struct closure_Node__subscribe_T_int_1 f; struct SubnI r;
+  Node__subscribe_T_int_lambda_SubjectRouter_h_L99(n, lv, &o, &f, &r); CANARY; }
+void h_Node_subscribe_void(void) { struct Node *n = mknode(); struct RLV lv = mkview(); struct OPtr0 o; struct closure_Node__subscribe_T__1 f; struct Subn0 r;
+  Node__subscribe_T__lambda_SubjectRouter_h_L99(n, lv, &o, &f, &r); CANARY; }
